@@ -7,6 +7,9 @@ From Coq Require Import List NArith ZArith Lia Bool Arith.
 From Coq Require Import Init.Byte.
 From FFS Require Import Base.Res Base.Bytes Keystore.Json Keystore.JsonFacts Keystore.Prims Keystore.Model Keystore.Spec.
 From FFS Require Import Keystore.ProofsNew.
+(* only for [doc_alloc_ok], the allocation cap of scrypt.Key in the specification's vocabulary *)
+From FFS Require Keystore.ReadTypes.
+Notation doc_alloc_ok := Keystore.ReadTypes.doc_alloc_ok.
 Import ListNotations.
 Local Open Scope string_scope.
 Local Open Scope list_scope.
@@ -572,6 +575,7 @@ Theorem read_is_standard_core (check_cipher : bool) doc pw key md :
   unambiguous doc = true ->
   (forall id, v3_id doc = Some id -> uuid_parse P id <> None) ->
   unmarshal_metadata P doc = Ok (Some md) ->
+  doc_alloc_ok doc = true ->
   exists w, read_wallet_tree P doc pw = Ok w /\ PrivateKey w = key /\ Metadata w = md /\
             exists id, v3_id doc = Some id /\ GetID w = uuid_parse P id /\ GetID w <> None.
 Proof.
@@ -593,11 +597,15 @@ Proof.
   destruct (derive_key P kdf kp pw) as [dk|] eqn:Dk; try discriminate.
   destruct (bytes_eqb (hash P (skipn 16 dk ++ ct)) mac) eqn:M; [|discriminate].
   intros H; injection H as <-.
+  (* the allocation cap, on the members the specification reads *)
+  assert (Hcap : doc_alloc_ok (JObj top) = true ->
+                 match int_field "n" kp, int_field "r" kp with Some n, Some r => scrypt_alloc_ok n r | _, _ => true end = true).
+  { unfold Keystore.ReadTypes.doc_alloc_ok. rewrite Fc, Fkp. exact (fun H => H). }
   (* unambiguity, per object *)
   unfold unambiguous. rewrite Fc, Fcp, Fkp. intros U.
   apply andb_prop in U as [Utop U]. apply andb_prop in U as [U Ukp]. apply andb_prop in U as [Uc Ucp].
   apply andb_prop in Ukp as [Uks Ukp].
-  intros LUid Emd.
+  intros LUid Emd Hcap0. apply Hcap in Hcap0. clear Hcap.
   (* the pieces *)
   assert (Vid : v3_id (JObj top) = Some id) by (unfold v3_id; rewrite Fid; reflexivity).
   destruct (uuid_parse P id) as [u|] eqn:Pid; [|exfalso; exact (LUid id Vid Pid)].
@@ -633,7 +641,7 @@ Proof.
     destruct (scrypt_pre_split _ _ _ _ Pre) as [Dom [Pok [Rpos Ppos]]].
     replace (r <=? 0)%Z with false by (symmetry; apply Z.leb_gt; exact Rpos).
     replace (p <=? 0)%Z with false by (symmetry; apply Z.leb_gt; exact Ppos). cbn [orb].
-    unfold call_scrypt. rewrite Dom, Pok. cbn [negb]. smp. cbn [gs_data].
+    unfold call_scrypt. rewrite Dom, Pok, Hcap0. cbn [negb]. smp. cbn [gs_data].
     rewrite (decryptCommon_spec (cc_target cipher ct iv kdf mac) (scrypt P pw salt n r p 32)).
     + smp. eexists. split; [reflexivity|]. split; [reflexivity|]. split; [reflexivity|].
       exists id. unfold v3_id, str_field. rewrite Fid. unfold GetID. cbn [w_core cf_id]. rewrite Pid.
@@ -673,11 +681,11 @@ Qed.
 
 Theorem read_is_standard (check_cipher : bool) doc pw key :
   v3_decrypt_gen check_cipher P doc pw = Ok key ->
-  unambiguous doc = true -> nums_ok P doc = true ->
+  unambiguous doc = true -> nums_ok P doc = true -> doc_alloc_ok doc = true ->
   exists w, read_wallet_tree P doc pw = Ok w /\ PrivateKey w = key /\
             exists id, v3_id doc = Some id /\ GetID w = uuid_parse P id /\ GetID w <> None.
 Proof.
-  intros D U N.
+  intros D U N Hcap.
   assert (O : exists top, doc = JObj top).
   { unfold v3_decrypt_gen in D. destruct doc; try discriminate. eexists; reflexivity. }
   destruct O as [top ->]. destruct (unmarshal_metadata_ok P top N) as [md Emd].
@@ -691,6 +699,7 @@ Proof.
     destruct (uuid_text_ok id') eqn:T; cbn [negb] in D; try discriminate.
     exact (LU id' T).
   - exact Emd.
+  - exact Hcap.
   - exists w. auto.
 Qed.
 
